@@ -153,7 +153,7 @@ pub fn run(rep: &mut Report) {
     rep.assume("`))` inside an argument and an empty `{x:}` spec followed by '<' or '>' are grammar ambiguities and are not generated");
     rep.assume("TZ=IST-5:30 is set by the check so that utc and local differ");
     rep.set_extra("profile", json!(if cfg!(debug_assertions) { "dev (debug_assertions on): {D(..)} renders, {R(..)} does not" } else { "release: {R(..)} renders, {D(..)} does not" }));
-    let n = if rep.tier == "thorough" { 300_000 } else { 12_000 };
+    let n = if rep.tier == "thorough" { 1_500_000 } else { 100_000 };
     run_cases(rep, "pattern", n, |rep, rng, idx| {
         let keys: Vec<String> = vec!["user".into(), "k é".into(), "a(b".into()];
         let o = GenOpts { max_depth: 4, allow_default_date: true, allow_profile_groups: true, spec_prob: (1, 3), mdc_keys: keys };
